@@ -364,13 +364,15 @@ static std::string runCli(const vj::Val& st) {
   std::string text = textOf(st);
   std::string prog = dir + "/prog.bloc", so = dir + "/stdout", se = dir + "/stderr", of = dir + "/out.txt", si = dir + "/stdin";
   { std::ofstream f(prog, std::ios::binary); f << text; }
-  { std::ofstream f(si, std::ios::binary); if (mode == "stdin" || mode == "inter") f << text; }
+  std::string savedpath = dir + "/saved.bloc";
+  { std::ofstream f(si, std::ios::binary); if (mode == "stdin" || mode == "inter") f << text; else if (mode == "save") f << text << "\nsave \"" << savedpath << "\"\n"; }
+  unlink(savedpath.c_str());
   unlink(of.c_str());
   std::vector<std::string> argv;
   argv.push_back(bloc ? bloc : "bloc");
   if (mode == "out") argv.push_back("--out=" + of);
   if (mode == "expr") { argv.push_back("-e"); argv.push_back(text); }
-  else if (mode == "inter") argv.push_back("-i");
+  else if (mode == "inter" || mode == "save") argv.push_back("-i");
   else if (mode == "stdin") argv.push_back("-");
   else argv.push_back(prog);
   if (const vj::Val* a = st.get("args")) for (auto& x : a->a) argv.push_back(x->s);
@@ -391,7 +393,22 @@ static std::string runCli(const vj::Val& st) {
   /* sanitizer reports of the child count as a crash class of their own */
   bool san = err.find("Sanitizer") != std::string::npos || err.find("runtime error:") != std::string::npos;
   o += std::string(",\"san\":") + (san ? "true" : "false");
-  if (mode == "inter") {
+  if (mode == "save") {
+    /* the program entered statement by statement was saved by the `save` command: the saved file is then run as a script */
+    std::string saved = slurp(savedpath);
+    std::string so2 = dir + "/stdout2";
+    pid_t p2 = fork();
+    if (p2 == 0) {
+      int fo = open(so2.c_str(), O_WRONLY | O_CREAT | O_TRUNC, 0644); int fe = open("/dev/null", O_WRONLY);
+      dup2(fo, 1); dup2(fe, 2); alarm(20);
+      execl(argv[0].c_str(), argv[0].c_str(), savedpath.c_str(), (char*)nullptr);
+      _exit(127);
+    }
+    int st2 = 0; waitpid(p2, &st2, 0);
+    o += ",\"saved_text\":" + vj::q(saved) + ",\"saved_out\":" + vj::q(slurp(so2)) + ",\"saved_status\":" + std::to_string(WIFEXITED(st2) ? WEXITSTATUS(st2) : -1);
+    unlink(so2.c_str()); unlink(savedpath.c_str());
+  }
+  if (mode == "inter" || mode == "save") {
     int nerr = 0, nperr = 0;
     o += ",\"out\":" + vj::q(cleanInteractive(out, nerr, nperr)) + ",\"nerr\":" + std::to_string(nerr) + ",\"nperr\":" + std::to_string(nperr);
   } else o += ",\"out\":" + vj::q(out);
@@ -758,7 +775,15 @@ static std::string doStep(const vj::Val& st) {
       Ctx& c = getCtx(id);
       std::string t = textOf(st);
       std::string how = st.str("reader", "frag");
-      Parser::StreamReader* rd = (how == "string") ? (Parser::StreamReader*)new StringReader(t) : (Parser::StreamReader*)new FragReader(t, fragSizes(st));
+      Parser::StreamReader* rd;
+      if (how == "include") {
+        /* the text is in a file that the program includes: the INCLUDE statement has a file reader of its own */
+        std::string path = tmpDir() + "/inc" + std::to_string(id) + ".bloc";
+        { std::ofstream f(path, std::ios::binary); f << t; }
+        c.ctx->trusted(true);
+        rd = new StringReader("include \"" + path + "\";\n");
+      }
+      else rd = (how == "string") ? (Parser::StreamReader*)new StringReader(t) : (Parser::StreamReader*)new FragReader(t, fragSizes(st));
       Executable* ex = nullptr;
       std::string oc = "ok"; int no = 0; std::string name;
       try { ex = Parser::parse(*c.ctx, *rd); if (!ex) oc = "parse_null"; }
